@@ -766,10 +766,13 @@ func notNil(v reflect.Value) bool {
 }
 
 func (st *Runtime) isSet(node Node) (ok bool) {
+	scope, context, content := st.scope, st.context, st.content
 	defer func() {
 		if r := recover(); r != nil {
-			// something panicked while evaluating node
+			// something panicked while evaluating node; the bodies it was in the middle
+			// of (in a template run by exec, say) are abandoned with their bindings
 			ok = false
+			st.scope, st.context, st.content = scope, context, content
 		}
 	}()
 
